@@ -4,8 +4,11 @@ Regenerates coq/Gen/C09_load.v from
 * src/_griffe/agents/nodes/parameters.py `get_parameters`: which ParameterKind each bucket of `ast.arguments` gets and the
   default text of the two variadic parameters;
 * src/_griffe/agents/inspector.py `_kind_map`: inspect.Parameter kind -> ParameterKind;
-* every `Parameter(...)` construction in the loaders (visitor, inspector, dataclasses extension): must pass `kind=`; every
-  ParameterKind member those files mention (what `kind` can be there);
+* every `Parameter(...)` construction in the loaders (visitor, inspector, dataclasses extension, stubs merger, loader): must
+  pass `kind=` with an expression that cannot be None -- a ParameterKind member, a conditional between such, a `_kind_map[...]`
+  subscript (KeyError, never None), the kind that get_parameters yields, the `.kind` of another parameter, or a local name bound
+  only to such expressions; a `.get(...)` or any other call is refused; every ParameterKind member those files mention;
+* extensions/dataclasses.py `_dataclass_parameters`: the two kinds a synthesised `__init__` parameter can get, and the kind of `self`;
 * every `Decorator(...)` construction in the loaders: must pass `lineno=<node>.lineno` (an ast node's line number, an int);
 * every `DocstringSection*(...)` construction in the docstring parsers: the class must be one of docstrings/models.py.
 
@@ -20,7 +23,8 @@ from harness.common.framework import REPO, VERIF, TranslatorError
 from harness.translate.c09_exprs import enum_members
 from harness.translate.c09_schema import coq_list, coq_string
 
-LOADER_FILES = ["src/_griffe/agents/visitor.py", "src/_griffe/agents/inspector.py", "src/_griffe/extensions/dataclasses.py"]
+LOADER_FILES = ["src/_griffe/agents/visitor.py", "src/_griffe/agents/inspector.py", "src/_griffe/extensions/dataclasses.py", "src/_griffe/merger.py",
+                "src/_griffe/loader.py"]
 PARSER_FILES = ["src/_griffe/docstrings/google.py", "src/_griffe/docstrings/numpy.py", "src/_griffe/docstrings/sphinx.py",
                 "src/_griffe/docstrings/parsers.py"]
 BUCKETS = ["posonlyargs", "args", "vararg", "kwonlyargs", "kwarg"]
@@ -82,10 +86,79 @@ def inspect_kind_map(kinds: dict[str, str]):
     raise TranslatorError("inspector.py: _kind_map not found")
 
 
+def _enclosing_functions(tree):
+    """Call node id -> innermost enclosing FunctionDef"""
+    out = {}
+
+    def walk(node, fn):
+        for child in ast.iter_child_nodes(node):
+            inner = child if isinstance(child, (ast.FunctionDef, ast.AsyncFunctionDef)) else fn
+            if isinstance(child, ast.Call):
+                out[id(child)] = fn
+            walk(child, inner)
+    walk(tree, None)
+    return out
+
+
+def _bindings(fn, name: str):
+    """every expression the local `name` is bound to inside fn: assigned values, or ("loop", iterable) for loop / comprehension targets"""
+    out = []
+    if fn is None:
+        return out
+    for node in ast.walk(fn):
+        if isinstance(node, ast.Assign):
+            for t in node.targets:
+                if isinstance(t, ast.Name) and t.id == name:
+                    out.append(node.value)
+                elif isinstance(t, (ast.Tuple, ast.List)) and any(isinstance(e, ast.Name) and e.id == name for e in ast.walk(t)):
+                    out.append(("unpack", node.value))
+        elif isinstance(node, ast.AnnAssign) and isinstance(node.target, ast.Name) and node.target.id == name and node.value is not None:
+            out.append(node.value)
+        elif isinstance(node, (ast.For, ast.AsyncFor, ast.comprehension)):
+            if any(isinstance(e, ast.Name) and e.id == name for e in ast.walk(node.target)):
+                out.append(("loop", node.iter))
+        elif isinstance(node, ast.NamedExpr) and node.target.id == name:
+            out.append(node.value)
+    for a in fn.args.posonlyargs + fn.args.args + fn.args.kwonlyargs:
+        if a.arg == name:
+            out.append(("argument", None))
+    return out
+
+
+def kind_is_total(expr, fn, where: str, depth: int = 0) -> None:
+    """raise TranslatorError unless `expr` can only evaluate to a ParameterKind (never None)"""
+    if depth > 4:
+        raise TranslatorError(f"{where}: kind expression too indirect to follow")
+    if _kind_member(expr) is not None:
+        return
+    if isinstance(expr, ast.IfExp):
+        kind_is_total(expr.body, fn, where, depth + 1)
+        kind_is_total(expr.orelse, fn, where, depth + 1)
+        return
+    if isinstance(expr, ast.Subscript) and isinstance(expr.value, ast.Name) and expr.value.id == "_kind_map":
+        return
+    if isinstance(expr, ast.Attribute) and expr.attr == "kind":
+        return    # the kind of an existing parameter / inspect.Parameter is mapped elsewhere
+    if isinstance(expr, ast.Name):
+        bound = _bindings(fn, expr.id)
+        if not bound:
+            raise TranslatorError(f"{where}: cannot find what `{expr.id}` is bound to")
+        for b in bound:
+            if isinstance(b, tuple):
+                tag, it = b
+                if tag == "loop" and it is not None and "get_parameters(" in ast.unparse(it):
+                    continue
+                raise TranslatorError(f"{where}: `{expr.id}` comes from {tag} {ast.unparse(it)[:60] if it is not None else ''}: not known to be a ParameterKind")
+            kind_is_total(b, fn, where, depth + 1)
+        return
+    raise TranslatorError(f"{where}: kind={ast.unparse(expr)[:80]} can be something else than a ParameterKind (None?)")
+
+
 def construction_sites(kinds: dict[str, str]):
     mentioned, param_sites, deco_sites = [], [], []
     for rel in LOADER_FILES:
         tree = _parse(rel)
+        enclosing = _enclosing_functions(tree)
         for node in ast.walk(tree):
             m = _kind_member(node)
             if m is not None:
@@ -97,6 +170,7 @@ def construction_sites(kinds: dict[str, str]):
                 kw = {k.arg: k.value for k in node.keywords}
                 if "kind" not in kw:
                     raise TranslatorError(f"{rel}:{node.lineno}: Parameter(...) built without kind= (its kind would be None)")
+                kind_is_total(kw["kind"], enclosing.get(id(node)), f"{rel}:{node.lineno}")
                 param_sites.append(f"{Path(rel).name}:{ast.unparse(kw['kind'])}")
             if isinstance(node, ast.Call) and isinstance(node.func, ast.Name) and node.func.id == "Decorator":
                 kw = {k.arg: k.value for k in node.keywords}
@@ -107,6 +181,29 @@ def construction_sites(kinds: dict[str, str]):
     if not param_sites or not deco_sites:
         raise TranslatorError("no Parameter(...) / Decorator(...) construction found in the loaders")
     return mentioned, param_sites, deco_sites
+
+
+def dataclass_kinds(kinds: dict[str, str]):
+    """extensions/dataclasses.py: (kind of a keyword-only field, kind of any other field, kind of `self`)"""
+    tree = _parse("src/_griffe/extensions/dataclasses.py")
+    fn = [n for n in ast.walk(tree) if isinstance(n, ast.FunctionDef) and n.name == "_dataclass_parameters"]
+    if len(fn) != 1:
+        raise TranslatorError("dataclasses.py: _dataclass_parameters not found")
+    cond = [b for b in _bindings(fn[0], "kind") if isinstance(b, ast.IfExp)]
+    if len(cond) != 1 or _kind_member(cond[0].body) not in kinds or _kind_member(cond[0].orelse) not in kinds:
+        raise TranslatorError("dataclasses.py: the kind of a synthesised parameter is no longer `<member> if <keyword-only> else <member>`")
+    if "kw_only" not in ast.unparse(cond[0].test):
+        raise TranslatorError("dataclasses.py: the kind of a synthesised parameter no longer depends on kw_only")
+    self_kind = None
+    for node in ast.walk(tree):
+        if isinstance(node, ast.Call) and isinstance(node.func, ast.Name) and node.func.id == "Parameter":
+            kw = {k.arg: k.value for k in node.keywords}
+            name = kw.get("name") or (node.args[0] if node.args else None)
+            if isinstance(name, ast.Constant) and name.value == "self":
+                self_kind = _kind_member(kw.get("kind"))
+    if self_kind not in kinds:
+        raise TranslatorError("dataclasses.py: the `self` parameter of the synthesised __init__ was not found")
+    return kinds[_kind_member(cond[0].body)], kinds[_kind_member(cond[0].orelse)], kinds[self_kind]
 
 
 def parser_section_classes():
@@ -132,6 +229,7 @@ def translate(ctx=None) -> Path:
     static, defaults = static_kinds(kinds)
     imap = inspect_kind_map(kinds)
     mentioned, param_sites, deco_sites = construction_sites(kinds)
+    dc_kw, dc_other, dc_self = dataclass_kinds(kinds)
     sections = parser_section_classes()
     pair = lambda a, b: f"({coq_string(a)}, {coq_string(b)})"   # noqa: E731
     out = ["(* GENERATED by harness/translate/c09_load.py from the loaders of /repo/src/_griffe -- do not edit *)",
@@ -145,6 +243,10 @@ def translate(ctx=None) -> Path:
            "(* every ParameterKind value the loaders mention (what `kind=` can be at a Parameter(...) site); the sites themselves *)",
            f"Definition loader_param_kinds : list string := {coq_list(coq_string(k) for k in mentioned)}.",
            f"Definition parameter_sites : list string := {coq_list(coq_string(s) for s in param_sites)}.", "",
+           "(* extensions/dataclasses.py: kind of a synthesised __init__ parameter (keyword-only field / any other field / self) *)",
+           f"Definition dataclass_kw_kind : string := {coq_string(dc_kw)}.",
+           f"Definition dataclass_other_kind : string := {coq_string(dc_other)}.",
+           f"Definition dataclass_self_kind : string := {coq_string(dc_self)}.", "",
            "(* the lineno argument of every Decorator(...) site in the loaders *)",
            f"Definition decorator_lineno_sources : list string := {coq_list(coq_string(s) for s in deco_sites)}.", "",
            "(* section classes the docstring parsers instantiate *)",
